@@ -109,7 +109,7 @@ class Gen:
         if ty_name == "Float":
             return {"k": "float", "v": r.choice(["1.5", "-0.25", "1e3", "2.5E-2"])}
         if ty_name == "String":
-            return v_str(r.choice(["", "x", "hello world", "q\"uote", "back\\slash", "line\nbreak", "unié中"]))
+            return v_str(r.choice(["", "x", "hello world", "q\"uote", "back\\slash", "line\nbreak", "unié中", "astral \U0001F389 \U0001D11E"]))
         if ty_name == "Boolean":
             return {"k": "bool", "v": r.chance(1, 2)}
         if ty_name == "ID":
